@@ -57,6 +57,10 @@ def normalize_float(number):
     '-.40875e-2'
     >>> normalize_float('1.-2')
     '1.e-2'
+    >>> normalize_float('1.50e-3')
+    '1.5e-3'
+    >>> normalize_float('.500+2')
+    '.5e+2'
     >>> normalize_float('6.3023-5')
     '6.3023e-5'
     >>> normalize_float('-5e-4')
@@ -71,6 +75,10 @@ def normalize_float(number):
     '-5e4'
     '''
     norm = re.sub(r'^([-+]?[0-9]*\.[0-9]*?)0+$', r'\1', number)
+    # trailing zeros of the fraction in front of an exponent (a mantissa
+    # without integer digits keeps one fractional digit)
+    norm = re.sub(r'^([-+]?(?:[0-9]+\.[0-9]*?|\.[0-9]*?[0-9]))0+'
+                  r'((?:[eEdD][-+]?|[-+])[0-9]+)$', r'\1\2', norm)
     if norm[-1] == '.':
         norm += '0'
     norm = re.sub(r'^([-+]?([0-9]+(\.[0-9]*)?|[0-9]*\.[0-9]+))([-+][0-9]+)$',
